@@ -72,8 +72,10 @@ def evaluate(mod, cases, tag="main", sample=None):
     nsample = min(len(lines), sample if sample is not None else getattr(mod, "COQ_SAMPLE", 150))
     cross = {"in_coq": 0, "disagree": 0}
     if nsample:
-        step = max(1, len(lines) // nsample)
-        sel = list(range(0, len(lines), step))[:nsample]
+        # Coq parses literals slowly (and overflows its stack on very long ones): sample among the lines of moderate length
+        short = [j for j in range(len(lines)) if len(lines[j]) <= 6000]
+        step = max(1, len(short) // nsample) if short else 1
+        sel = short[::step][:nsample]
         cv, cerrs = C.run_coq_lines(mod.ID, [lines[j] for j in sel])
         for e in cerrs:
             errors.append((0, "in-Coq evaluation failed: " + e))
